@@ -70,3 +70,8 @@ def run_rules(rep, tier, rules, floors, positive=True):
 
 def run(rep, tier):
     run_rules(rep, tier, list(RULES), RULES)
+    # no state kept across calls in the approximate machinery (a function-local static sized for the first graph breaks the next, larger one)
+    from . import c07
+    rep.rule('R07g', 'no mutable function-local static state in the approximate algorithms and the searches they call (shared with C07)', floor=0)
+    for prog in env.extract([env.witness_tu()], 'full').values():
+        c07.r07g(rep, prog, only_files=('approx_spanner', 'parmcb_approx', 'detail/bfs.hpp', 'detail/dijkstra.hpp'))
